@@ -1,4 +1,5 @@
 import TantivyModel.Model.DocSet.Vec
+import TantivyModel.Model.DocSet.BitSet
 import TantivyModel.Model.DocSet.Exclude
 import TantivyModel.Model.DocSet.SimpleUnion
 import TantivyModel.Model.DocSet.Intersection
@@ -28,68 +29,68 @@ def H : Nat := Gen.UNION_HORIZON
 
 def lift1 (f : α → β × α) (g : α → Comb σ) (x : α) : β × Comb σ := let r := f x; (r.1, g r.2)
 
-def ds (C : DS σ) : DS (Comb σ) where
+def ds (C : DS σ) (fx : Fix := {}) : DS (Comb σ) where
   doc
     | .leaf s => C.doc s
-    | .bunion u => (BUnion.ds C H).doc u
+    | .bunion u => (BUnion.ds C H fx).doc u
     | .sunion u => (SimpleUnion.ds C).doc u
-    | .inter i => (Inter.ds C).doc i
+    | .inter i => (Inter.ds C fx).doc i
     | .excl e => (Exclude.ds C C).doc e
     | .reqopt r => (ReqOpt.ds C C).doc r
     | .disj d => (Disj.ds C).doc d
   advance
     | .leaf s => .leaf (C.advance s)
-    | .bunion u => .bunion ((BUnion.ds C H).advance u)
+    | .bunion u => .bunion ((BUnion.ds C H fx).advance u)
     | .sunion u => .sunion ((SimpleUnion.ds C).advance u)
-    | .inter i => .inter ((Inter.ds C).advance i)
+    | .inter i => .inter ((Inter.ds C fx).advance i)
     | .excl e => .excl ((Exclude.ds C C).advance e)
     | .reqopt r => .reqopt ((ReqOpt.ds C C).advance r)
     | .disj d => .disj ((Disj.ds C).advance d)
   seek t
     | .leaf s => .leaf (C.seek t s)
-    | .bunion u => .bunion ((BUnion.ds C H).seek t u)
+    | .bunion u => .bunion ((BUnion.ds C H fx).seek t u)
     | .sunion u => .sunion ((SimpleUnion.ds C).seek t u)
-    | .inter i => .inter ((Inter.ds C).seek t i)
+    | .inter i => .inter ((Inter.ds C fx).seek t i)
     | .excl e => .excl ((Exclude.ds C C).seek t e)
     | .reqopt r => .reqopt ((ReqOpt.ds C C).seek t r)
     | .disj d => .disj ((Disj.ds C).seek t d)
   seekDanger t
     | .leaf s => lift1 (C.seekDanger t) .leaf s
-    | .bunion u => lift1 ((BUnion.ds C H).seekDanger t) .bunion u
+    | .bunion u => lift1 ((BUnion.ds C H fx).seekDanger t) .bunion u
     | .sunion u => lift1 ((SimpleUnion.ds C).seekDanger t) .sunion u
-    | .inter i => lift1 ((Inter.ds C).seekDanger t) .inter i
+    | .inter i => lift1 ((Inter.ds C fx).seekDanger t) .inter i
     | .excl e => lift1 ((Exclude.ds C C).seekDanger t) .excl e
     | .reqopt r => lift1 ((ReqOpt.ds C C).seekDanger t) .reqopt r
     | .disj d => lift1 ((Disj.ds C).seekDanger t) .disj d
   fillBuffer
     | .leaf s => lift1 C.fillBuffer .leaf s
-    | .bunion u => lift1 (BUnion.ds C H).fillBuffer .bunion u
+    | .bunion u => lift1 (BUnion.ds C H fx).fillBuffer .bunion u
     | .sunion u => lift1 (SimpleUnion.ds C).fillBuffer .sunion u
-    | .inter i => lift1 (Inter.ds C).fillBuffer .inter i
+    | .inter i => lift1 (Inter.ds C fx).fillBuffer .inter i
     | .excl e => lift1 (Exclude.ds C C).fillBuffer .excl e
     | .reqopt r => lift1 (ReqOpt.ds C C).fillBuffer .reqopt r
     | .disj d => lift1 (Disj.ds C).fillBuffer .disj d
   fillBitset m
     | .leaf s => lift1 (C.fillBitset m) .leaf s
-    | .bunion u => lift1 ((BUnion.ds C H).fillBitset m) .bunion u
+    | .bunion u => lift1 ((BUnion.ds C H fx).fillBitset m) .bunion u
     | .sunion u => lift1 ((SimpleUnion.ds C).fillBitset m) .sunion u
-    | .inter i => lift1 ((Inter.ds C).fillBitset m) .inter i
+    | .inter i => lift1 ((Inter.ds C fx).fillBitset m) .inter i
     | .excl e => lift1 ((Exclude.ds C C).fillBitset m) .excl e
     | .reqopt r => lift1 ((ReqOpt.ds C C).fillBitset m) .reqopt r
     | .disj d => lift1 ((Disj.ds C).fillBitset m) .disj d
   count
     | .leaf s => lift1 C.count .leaf s
-    | .bunion u => lift1 (BUnion.ds C H).count .bunion u
+    | .bunion u => lift1 (BUnion.ds C H fx).count .bunion u
     | .sunion u => lift1 (SimpleUnion.ds C).count .sunion u
-    | .inter i => lift1 (Inter.ds C).count .inter i
+    | .inter i => lift1 (Inter.ds C fx).count .inter i
     | .excl e => lift1 (Exclude.ds C C).count .excl e
     | .reqopt r => lift1 (ReqOpt.ds C C).count .reqopt r
     | .disj d => lift1 (Disj.ds C).count .disj d
   score
     | .leaf s => lift1 C.score .leaf s
-    | .bunion u => lift1 (BUnion.ds C H).score .bunion u
+    | .bunion u => lift1 (BUnion.ds C H fx).score .bunion u
     | .sunion u => lift1 (SimpleUnion.ds C).score .sunion u
-    | .inter i => lift1 (Inter.ds C).score .inter i
+    | .inter i => lift1 (Inter.ds C fx).score .inter i
     | .excl e => lift1 (Exclude.ds C C).score .excl e
     | .reqopt r => lift1 (ReqOpt.ds C C).score .reqopt r
     | .disj d => lift1 (Disj.ds C).score .disj d
@@ -98,16 +99,17 @@ end Comb
 
 /-- nesting depth `n` over vector leaves -/
 def Level : Nat → Type
-  | 0 => Vec.State
+  | 0 => Leaf
   | n + 1 => Comb (Level n)
 
-def levelDS : (n : Nat) → DS (Level n)
-  | 0 => Vec.ds
-  | n + 1 => Comb.ds (levelDS n)
+def levelDS (fx : Fix := {}) : (n : Nat) → DS (Level n)
+  | 0 => Leaf.ds fx
+  | n + 1 => Comb.ds (levelDS fx n) fx
 
 /-- description of a scorer tree as sent by the harness -/
 inductive Tree where
   | vec (docs : List Nat) (score : Nat)
+  | bits (docs : List Nat) (maxValue score : Nat)
   | bunion (sum : Bool) (cs : List Tree)
   | sunion (cs : List Tree)
   | inter (dense : Bool) (cs : List Tree)
@@ -117,27 +119,29 @@ inductive Tree where
 
 /-- build the initial state of a tree at nesting level `n` (`none`: deeper than `n`, or an
 intersection of fewer than two) -/
-def buildTree : (n : Nat) → Tree → Option (Level n)
-  | 0, .vec docs sc => some (Vec.init docs sc)
+def buildTree (fx : Fix := {}) : (n : Nat) → Tree → Option (Level n)
+  | 0, .vec docs sc => some (.vec (Vec.init docs sc))
+  | 0, .bits docs mx sc => some (.bits (BitSet.init docs mx sc))
   | 0, _ => none
-  | n + 1, .vec docs sc => (buildTree n (.vec docs sc)).map .leaf
+  | n + 1, .vec docs sc => (buildTree fx n (.vec docs sc)).map .leaf
+  | n + 1, .bits docs mx sc => (buildTree fx n (.bits docs mx sc)).map .leaf
   | n + 1, .bunion sum cs =>
-    (cs.mapM (buildTree n)).map
-      (fun l => .bunion (BUnion.build (levelDS n) Comb.H sum l))
+    (cs.mapM (buildTree fx n)).map
+      (fun l => .bunion (BUnion.build (levelDS fx n) Comb.H sum l))
   | n + 1, .sunion cs =>
-    (cs.mapM (buildTree n)).map (fun l => .sunion (SimpleUnion.build (levelDS n) l))
+    (cs.mapM (buildTree fx n)).map (fun l => .sunion (SimpleUnion.build (levelDS fx n) l))
   | n + 1, .disj sum k cs =>
-    (cs.mapM (buildTree n)).map (fun l => .disj (Disj.new (levelDS n) sum k l))
+    (cs.mapM (buildTree fx n)).map (fun l => .disj (Disj.new (levelDS fx n) sum k l))
   | n + 1, .inter dense cs =>
-    match cs.mapM (buildTree n) with
-    | some (l :: r :: os) => some (.inter (Inter.new (levelDS n) dense l r os))
+    match cs.mapM (buildTree fx n) with
+    | some (l :: r :: os) => some (.inter (Inter.new (levelDS fx n) dense l r os))
     | _ => none
   | n + 1, .excl u es =>
-    match buildTree n u, es.mapM (buildTree n) with
-    | some u', some es' => some (.excl (Exclude.new (levelDS n) (levelDS n) u' es'))
+    match buildTree fx n u, es.mapM (buildTree fx n) with
+    | some u', some es' => some (.excl (Exclude.new (levelDS fx n) (levelDS fx n) u' es'))
     | _, _ => none
   | n + 1, .reqopt sum req opt =>
-    match buildTree n req, buildTree n opt with
+    match buildTree fx n req, buildTree fx n opt with
     | some r, some o => some (.reqopt { req := r, opt := o, cache := none, sum := sum })
     | _, _ => none
 
